@@ -31,10 +31,10 @@ Proof.
   match goal with |- context [plan ?pc ?root ss] => destruct (plan pc root ss) as [steps|] end.
   2:{ intros H; inversion H; subst; cbn. constructor; [exact Hint | constructor]. }
   match goal with |- context [fold_left ?F steps ?I] => destruct (fold_left F steps I) as [a|] eqn:Ef end.
-  2:{ intros H; inversion H; subst; cbn. constructor; [exact Hint | constructor]. }
+  2:{ intros H; inversion H; subst; cbn. apply Forall_app; split; [exact Hperm | constructor; [exact Hint | constructor]]. }
   assert (Ha : Forall names_if_downstream (a_errors a)).
   { apply named_weaken. eapply fold_exec_root_named; [exact Ef|]. intros a0 E0. inversion E0; subst. constructor. }
-  destruct (Nat.ltb max (a_count a)); [intros H; inversion H; subst; cbn; constructor; [exact Hint | constructor]|].
+  destruct (Nat.ltb max (a_count a)); [intros H; inversion H; subst; cbn; apply Forall_app; split; [exact Hperm | constructor; [exact Hint | constructor]]|].
   match goal with |- context [merge_results ?R] => destruct (merge_results R) as [merged|] end.
   2:{ intros H; inversion H; subst; cbn. repeat (apply Forall_app; split); auto. }
   match goal with |- context [bubble ?f ?c ?cur ?s ?m ?p] => destruct (bubble f c cur s m p) as [v ss' berrs up|msg] end;
